@@ -1,4 +1,5 @@
 import CanVerif.Lemmas.GenSem
+import CanVerif.Lemmas.GenRoundTrip
 /-!
 # C03  Generated message types encode and decode frames exactly as the DBC specifies
 
@@ -7,8 +8,12 @@ format or the remote flag is rejected and the message is unchanged (`C03_reject`
 to an integer signal by `UnmarshalFrame` is the C01 read of the signal's layout (`C03_decode_unsigned`,
 `C03_decode_signed`, `C03_decode_bool`), hence — by `C01_unsigned_value` / `C01_signed` — the integer whose binary digits
 are the payload bits the DBC layout selects; the frame header is the message's (`C10_frame_header`).
-That the emitted Go text has this denotation, the encode direction ("those bits, zeros elsewhere"), multiplexing, the
-dispatcher and the embedded descriptors are decided per generated program on every run (bin/props.py C03).
+For integer and bool signals in a §4.3 layout (`MsgOk`): the produced frame holds every encoded signal's raw value at
+its own layout (`C03_encode`) and zeros at every other position (`C03_zero_elsewhere`); a multiplexed signal is encoded
+exactly when the stored multiplexer value equals its selector (`C03_mux_encode`) and decoded exactly when the
+multiplexer value decoded from the same frame equals it, keeping its previous value otherwise (`C03_mux_decode`).
+That the emitted Go text has this denotation, float32 signals, the dispatcher and the embedded descriptors are decided
+per generated program on every run (bin/props.py C03).
 -/
 namespace CanVerif
 
@@ -56,6 +61,58 @@ theorem C03_decode_unsigned (s : DSignal) (d : Data) (w : Nat) (hk : kindOf s = 
     unfold Below at hb
     exact Nat.lt_of_lt_of_le hb (Nat.pow_le_pow_right (by omega) (by simp [Sig.range, DSignal.sig]; omega))
   exact wrap_uint_id w _ (by omega) (by exact_mod_cast hlt)
+
+/-- Decoding a signed integer signal stores the C01 signed read of its layout (sign extension of exactly those bits). -/
+theorem C03_decode_signed (s : DSignal) (d : Data) (h : SigOk s) (h1 : s.length ≠ 1) (hs : s.signed = true) :
+    unmarshalField s d = (readS s.sig.range d).toInt := by
+  rw [unmarshalField_eq s d h.nofloat]
+  simp only [h1, if_false, hs, if_true, kindOf_sint s h.nofloat h1 h.l64 hs]
+  have hl : s.sig.range.l = s.length := rfl
+  obtain ⟨lo, hi⟩ := readS_toInt_bounds s.sig.range d h.fits (by rw [hl]; exact h.l1) (by rw [hl]; exact h.l64)
+  rw [hl] at lo hi
+  have hw := goWidth_ge s.length h.l64
+  have hp := pow_le_pow_int (s.length - 1) (goWidth s.length - 1) (by omega)
+  exact wrap_sint_id _ (by have := h.l1; omega) _ (Int.le_trans (Int.neg_le_neg hp) lo) (Int.lt_of_lt_of_le hi hp)
+
+/-- Encoding: in the produced frame every encoded signal (plain signals, and multiplexed signals whose selector equals
+the stored multiplexer value) holds exactly its stored raw value at its own layout. -/
+theorem C03_encode (m : DMessage) (st : GState) (hm : MsgOk m) (hinv : Inv m st = true)
+    (p : DSignal × Raw) (hp : p ∈ m.signals.zip st.vals)
+    (hc : p.1.muxed = false ∨ c2of m st.vals p.1 = true) : unmarshalField p.1 (frameOf m st).data = p.2 :=
+  frame_read m st hm hinv p hp (hc.imp (fun h => by unfold c1; simp [h]) id)
+
+/-- … and zeros everywhere else. -/
+theorem C03_zero_elsewhere (m : DMessage) (st : GState) (hm : MsgOk m) (hinv : Inv m st = true) (k : Nat)
+    (hout : ∀ p ∈ m.signals.zip st.vals, (p.1.muxed = false ∨ c2of m st.vals p.1 = true) →
+      ∀ i, i < p.1.length → p.1.rng.pos i ≠ k) : payloadBit (frameOf m st).data k = false := by
+  have hsig : ∀ q ∈ m.signals.zip st.vals, SigOk q.1 := fun q hq => hm.sigs q.1 (List.of_mem_zip hq).1
+  have ok : ∀ c, ActiveOk c (m.signals.zip st.vals) := fun c q hq _ => ⟨hsig q hq, inv_mem m st hinv q hq⟩
+  rw [frameOf_data, enc_outside _ _ _ (ok _) k (fun p hp hc => hout p hp (Or.inr hc)),
+    enc_outside _ _ _ (ok _) k (fun p hp hc => hout p hp (Or.inl (by unfold c1 at hc; simpa using hc)))]
+  simp [payloadBit]
+
+/-- A multiplexed signal is encoded exactly when the message has a multiplexer whose stored value equals the
+signal's selector. -/
+theorem C03_mux_encode (m : DMessage) (vals : List Raw) (s : DSignal) :
+    c2of m vals s = true ↔ s.muxed = true ∧ ∃ mi ms, muxOf m = some (mi, ms) ∧ vals.getD mi 0 = (s.muxValue : Int) := by
+  unfold c2of
+  cases h : muxOf m with
+  | none => simp
+  | some mp => obtain ⟨mi, ms⟩ := mp; simp
+
+/-- Decoding: plain signals are always transferred; a multiplexed signal is transferred exactly when the multiplexer
+value decoded from the same frame equals its selector and otherwise keeps its previous value. -/
+theorem C03_mux_decode (m : DMessage) (st st' : GState) (f : Frame)
+    (hplain : ∀ s ∈ m.signals, s.mux = true → s.muxed = false)
+    (hlen : st.vals.length = m.signals.length) (h : unmarshalFrame m st f = some st')
+    (i : Nat) (s : DSignal) (hs : m.signals[i]? = some s) :
+    st'.vals.getD i 0 =
+      if s.muxed = false then unmarshalField s f.data
+      else match muxOf m with
+        | none => st.vals.getD i 0
+        | some (_, ms) =>
+          if unmarshalField ms f.data = (s.muxValue : Int) then unmarshalField s f.data else st.vals.getD i 0 :=
+  unmarshalFrame_get m st st' f hplain hlen h i s hs
 
 /-- Decoding a 1-bit signal stores the single addressed bit. -/
 theorem C03_decode_bool (s : DSignal) (d : Data) (h1 : s.length = 1) (hfl : s.float = false) (hstart : s.start ≤ 63) :
